@@ -409,6 +409,9 @@ structure Inputs where
   filt1 : FilterSpec                -- regex outcomes of the first _filter_ambiguity (ambiguity_filters_dict)
   filt2 : FilterSpec                -- … of the second (dimension_ambiguity_filters_dict)
   half : List Bool                  -- half-unit regex on each number's text
+  pristineHalf : Bool               -- variant (findings/nwu/half-stale-start.diff): the relative number start is set on
+                                    -- a copy, `expand_half_suffix` sees the numbers with their absolute positions;
+                                    -- false = current code: it sees the numbers as the loop left them
   lockstep : Bool                   -- true = current code (fix e3a14a2db): `unit_is_prefix` is filtered together with the
                                     -- results; false = the code before it (the flags of the loop are passed unfiltered)
 
@@ -455,7 +458,8 @@ def extractPre (c : Cfg) (i : Inputs) : Option (List ER) :=
 
 def extract (c : Cfg) (i : Inputs) : Option (List ER) :=
   if i.src.isEmpty then some []
-  else (extractPre c i).map fun r => expandHalf r (loopState c i).nums i.half
+  else (extractPre c i).map fun r =>
+    expandHalf r (if i.pristineHalf then loopNumbers c i else (loopState c i).nums) i.half
 
 /-! ### `BaseMergedUnitExtractor` (currency): `__merge_pure_number` and `__merged_compound_units` as span arithmetic.
 Parameters: the unit extractor's results (`NumberWithUnitExtractor.extract`, above), the number extractor's results, and
